@@ -1,0 +1,1 @@
+//! Verification hooks (merge); see `verif/mod.rs`.
